@@ -11,7 +11,6 @@ use std::panic::{catch_unwind, AssertUnwindSafe};
 use std::pin::Pin;
 use std::task::{Context, Poll};
 
-const DEFAULT_CAP: usize = 10 * 1024 * 1024;
 const MESSAGE_MAX_LEN: usize = 16 + 65535;
 
 /// What the caller of read_message observes, one per call (model: Reader.outcome)
@@ -115,9 +114,10 @@ impl futures::io::AsyncRead for SchedSource {
     }
 }
 
+/// 0 = the default constructor (`::new`, the crate's own capacity constants); otherwise with_capacity
 fn cap_of(c: u128) -> usize {
     if c == 0 {
-        DEFAULT_CAP
+        0
     } else {
         (c as usize).max(MESSAGE_MAX_LEN)
     }
@@ -128,7 +128,13 @@ pub fn run_blocking(sh: bool, f: &Option<DltFilterConfig>, cap: usize, sched: &[
     let src = SchedSource { data: data.to_vec(), pos: 0, sched: sched.iter().cloned().collect() };
     let mut out = vec![];
     let limit = data.len() + 1;
-    let mut reader = match catch_unwind(AssertUnwindSafe(|| DltMessageReader::with_capacity(cap, MESSAGE_MAX_LEN, src, sh))) {
+    let mut reader = match catch_unwind(AssertUnwindSafe(|| {
+        if cap == 0 {
+            DltMessageReader::new(src, sh)
+        } else {
+            DltMessageReader::with_capacity(cap, MESSAGE_MAX_LEN, src, sh)
+        }
+    })) {
         Ok(r) => r,
         Err(_) => return (vec![Obs::Panic], true),
     };
@@ -152,7 +158,13 @@ pub fn run_async(sh: bool, f: &Option<DltFilterConfig>, cap: usize, sched: &[u64
     let src = SchedSource { data: data.to_vec(), pos: 0, sched: sched.iter().cloned().collect() };
     let mut out = vec![];
     let limit = data.len() + 1;
-    let mut reader = match catch_unwind(AssertUnwindSafe(|| DltStreamReader::with_capacity(cap, MESSAGE_MAX_LEN, src, sh))) {
+    let mut reader = match catch_unwind(AssertUnwindSafe(|| {
+        if cap == 0 {
+            DltStreamReader::new(src, sh)
+        } else {
+            DltStreamReader::with_capacity(cap, MESSAGE_MAX_LEN, src, sh)
+        }
+    })) {
         Ok(r) => r,
         Err(_) => return (vec![Obs::Panic], true),
     };
@@ -256,7 +268,7 @@ fn op_read(toks: &[Tok], prop: &str) -> Outcome {
             ));
         }
         // fragmentation independence on the implementation itself
-        let (plain, _) = run_blocking(sh, &f, DEFAULT_CAP.min(cap.max(MESSAGE_MAX_LEN)), &[], &data);
+        let (plain, _) = run_blocking(sh, &f, cap, &[], &data);
         if plain != obs {
             oracle.push(("fragmentation_independent".into(), format!("with this schedule {} but with whole reads {}", describe(&obs), describe(&plain))));
         }
